@@ -20,6 +20,9 @@ def run(rep, tier, seed, model_ok=True, effort=1):
                 "file written; a share of the projects runs in a subprocess under LC_ALL=C PYTHONUTF8=0; rfd_from_content compared with the Coq model; "
                 "non-trivial = distinct project whose update succeeds")
     rwcheck.run_update_projects(rep, tier, seed, "outside", model_ok=model_ok, effort=effort)
+    # the string primitives the theorems rest on (replace, split, join, splitlines, strip, find) against CPython itself
+    from . import libcorr
+    libcorr.pystr_stream(rep, common.rng(seed, "c04-pystr"), (300 if tier == "quick" else 5000) * effort, model_ok=model_ok)
     # subprocess runs under an ASCII locale
     r = common.rng(seed, "c04-locale")
     n = (6 if tier == "quick" else 60) * effort
